@@ -35,6 +35,16 @@ class Unpicklable(object):
 NAN = float('nan')      # ONE object per process (like math.nan): containers find it by identity
 
 
+class Plain(object):
+    """an ordinary object: default repr (<... at 0x...>), identity hash, no __eq__. Two live ones are different
+    arguments; PLAIN holds the two the simulator passes around (the same objects on every call)"""
+    def __init__(self, n):
+        self.n = n
+
+
+PLAIN = {1: Plain(1), 2: Plain(2)}
+
+
 class F64(float):
     """a float subclass (what numpy.float64 is): equal to, hashed and printed like the float it wraps"""
     __slots__ = ()
@@ -83,6 +93,8 @@ SPECIAL = {
     'badrepr': BadRepr,
     'unpicklable': Unpicklable,
     'generator': _gen,
+    'plain1': lambda: PLAIN[1],
+    'plain2': lambda: PLAIN[2],
     # hash() of a writable memoryview raises ValueError (not TypeError); it cannot be pickled either
     'memview': lambda: memoryview(bytearray(b'ab')),
     'lambda': lambda: (lambda x: x),
@@ -135,6 +147,8 @@ def enc(v):
         return {'$s': sorted((enc(x) for x in v), key=repr)}
     if type(v).__name__ == 'MainThing' and type(v).__module__ == '__main__':
         return {'$o': 'mainthing'} if _has_mainthing() else {'$r': repr(v)}
+    if isinstance(v, Plain):
+        return {'$o': 'plain%d' % v.n}
     if isinstance(v, KeyErrObj):
         return {'$o': 'keyerr'}
     if isinstance(v, memoryview):
@@ -188,9 +202,16 @@ def dec(j):
     raise ValueError("cannot decode %r" % (j,))
 
 
+import re as _re
+_ADDR = _re.compile(r' at 0x[0-9a-fA-F]+')
+
+
 def show(v):
     """short stable text for logs/digests (never raises)"""
     try:
-        return repr(enc(v))
+        text = repr(enc(v))
+        if ' at 0x' in text:
+            text = _ADDR.sub(' at 0x?', text)       # memory addresses differ from process to process
+        return text
     except Exception as e:
         return '<unshowable %s>' % type(e).__name__
